@@ -1,6 +1,7 @@
 // C09 sin/cos, C10 tan, C11 atan/atan2, C12 asin/acos
 // References: glibc x87 long double sinl/cosl/tanl/atanl/atan2l/asinl, bound + 2^-40 slack (DESIGN 4.2)
 #include "core.h"
+#include <cfenv>
 
 namespace
 {
@@ -82,12 +83,25 @@ void c09_run(Ctx & c)
       }
     c.run_check(PER, x, k);
     }
+  // the library is integer arithmetic: its results must not depend on the floating-point environment. The exact clauses
+  // (range, periodicity) are re-run under the three directed rounding modes (thread-local); the judges use integers only.
+  for(int mode : { FE_DOWNWARD, FE_UPWARD, FE_TOWARDZERO })
+    {
+    std::fesetround(mode);
+    uint64_t m = c.share(c.n(60000, 6000000));
+    for(uint64_t i = 0; i < m; ++i)
+      {
+      int64_t x = (i & 1) ? c.rng.logu(62) : c.rng.range(-TWO_PHI, TWO_PHI), k = (i & 2) ? c.rng.range(-KMAX, KMAX) : c.rng.logu(30);
+      c.run_check(PER, x, k); c.run_check(RNG, x); c.stratum("directed-rounding-mode");
+      }
+    std::fesetround(FE_TONEAREST);
+    }
   }
 Property P_C09 = { "C09", c09_init, c09_run,
   { { "sincos_acc", j_sincos_acc, "|sin(x)-sin x| <= 4ulp + r^9/9!, same for cos; a = raw x in [-411774,411774]" },
     { "sincos_range", j_sincos_range, "sin(x), cos(x) in [-1,1] for any finite x; a = raw" },
     { "sincos_period", j_sincos_period, "sin(x+k*2phi)==sin(x), cos likewise, |x|,|x+k*2phi| < 2^62 raw; a = raw x, b = k" } },
-  { "accuracy-domain", "range-clause", "range-large-argument", "periodicity", "period-across-zero" },
+  { "accuracy-domain", "range-clause", "range-large-argument", "periodicity", "period-across-zero", "directed-rounding-mode" },
   "accuracy: bound below 5 ulp (fewer than 11 admissible results), multiples of the pi/2 constant, domain edge; range: |x| > 2^62; period: x and x+k*2phi of opposite sign or |k| > 10^6; distinct by (x,k)",
   { "every raw x in [-411774,411774] (accuracy, range)", "every 5th raw x of one period x 10 values of k" }, { "every raw x in [-411774,411774] (accuracy, range)", "every raw x of one period x 10 values of k" } };
 Registrar R_C09(&P_C09);
@@ -156,11 +170,18 @@ void c10_run(Ctx & c)
       }
     c.run_check(SYM, x, k);
     }
+  for(int mode : { FE_DOWNWARD, FE_UPWARD, FE_TOWARDZERO })
+    { // see C09: exact clauses under directed rounding modes
+    std::fesetround(mode);
+    uint64_t m = c.share(c.n(60000, 6000000));
+    for(uint64_t i = 0; i < m; ++i) { int64_t x = (i & 1) ? c.rng.logu(62) : c.rng.range(0, PHI); c.run_check(SYM, x, (i & 2) ? c.rng.range(0, 1000) : c.rng.logu_pos(30)); c.stratum("directed-rounding-mode"); }
+    std::fesetround(FE_TONEAREST);
+    }
   }
 Property P_C10 = { "C10", c10_init, c10_run,
   { { "tan_acc", j_tan_acc, "|tan(x)-tan x| <= 2.5ulp(1+tan^2 x) for |x| <= pi, x not a pole; a = raw x in [-205887,205887]" },
     { "tan_sym", j_tan_sym, "tan(-x)==-tan(x); isnan(tan(x)) iff |x| mod phi == pi/2 constant; tan(x+k*phi)==tan(x) for x,k>=0; a = raw x (|x| < 2^62), b = k" } },
-  { "tan-series-branch", "tan-reciprocal-branch", "tan-beyond-pi/2", "tan-pole", "tan-non-pole", "tan-period" },
+  { "tan-series-branch", "tan-reciprocal-branch", "tan-beyond-pi/2", "tan-pole", "tan-non-pole", "tan-period", "directed-rounding-mode" },
   "accuracy: within 2000 raw of the pole, beyond pi/2, at the pi/4 branch point; symmetry/pole: pole arguments or |x| > 2^50; distinct by (x,k)",
   { "every raw x in [-205887,205887] (accuracy, oddness)", "every 3rd raw x in [0,phi] x 5 values of k" }, { "every raw x in [-205887,205887] (accuracy, oddness)", "every raw x in [0,phi] x 5 values of k" } };
 Registrar R_C10(&P_C10);
